@@ -106,7 +106,7 @@ class Values:
         return ("?", rot)
 
 
-def realise(g, cat, attrs, variant=0, shift=0, mark_box_src=None):
+def realise(g, cat, attrs, variant=0, shift=0, mark_box_src=None, labels=False):
     """-> (pdf bytes, meta).   g: list of node dicts; cat: attribute kinds written in the catalog;
     attrs: attribute kinds in play.   meta: objid_of[label], label_of[objid], values, own[label] (set of the
     inheritable keys written in the node's own dictionary)."""
@@ -149,10 +149,21 @@ def realise(g, cat, attrs, variant=0, shift=0, mark_box_src=None):
             return new(vals.rotate(src)) if indirect else vals.rotate(src)
         raise KeyError(a)
 
+    annot_src = {}
+
+    def annots_value(src):
+        a = new({"Type": Name("Annot"), "Subtype": Name("Text"), "Rect": [10, 10, 30, 30], "Contents": b"note of node %d" % src})
+        annot_src[a.n] = src
+        return new([a]) if indirect else [a]
+
     own_written = {}
     catalog = {"Type": Name("Catalog"), "Pages": Ref(objid_of[1]) if n else Ref(n + 50)}
     for a in sorted(cat):
         catalog[a] = attr_value(a, CAT)
+    if labels:
+        # page index i is labelled "p<i+1>" (index 0..2) / "q<i-2>" (from index 3 on)
+        tree = {"Nums": [0, {"S": Name("D"), "P": b"p"}, 3, {"S": Name("D"), "P": b"q"}]}
+        catalog["PageLabels"] = new(tree) if indirect else tree
     objs[1] = catalog
     for lab in range(1, n + 1):
         node = g[lab - 1]
@@ -186,6 +197,8 @@ def realise(g, cat, attrs, variant=0, shift=0, mark_box_src=None):
             elif kind == "Page" and a != "CropBox":
                 if a != "Rotate" or vals.rot_ok:
                     d[a] = attr_value(a, lab)
+        if "Annots" in attrs and "Annots" in own:
+            d["Annots"] = annots_value(lab)
         if kind == "Page":
             # marker: the MediaBox in force is not known to the realiser when MediaBox is in play (that is the
             # model's business); the caller passes the source the model derived (mark_box_src[label])
@@ -205,8 +218,14 @@ def realise(g, cat, attrs, variant=0, shift=0, mark_box_src=None):
         packed = [k for k, v in sorted(objs.items()) if not isinstance(v, Stream)]
         rev = Revision(dict(sorted(objs.items())), form="stream", objstm=packed, root=Ref(1))
     data, _ = build([rev])
-    meta = {"objid_of": objid_of, "label_of": {v: k for k, v in objid_of.items()}, "values": vals, "own": own_written}
+    meta = {"objid_of": objid_of, "label_of": {v: k for k, v in objid_of.items()}, "values": vals, "own": own_written,
+            "annot_src": annot_src}
     return data, meta
+
+
+def label_of_index(i):
+    """the label the /PageLabels tree written by realise(labels=True) gives page index i"""
+    return "p%d" % (i + 1) if i < 3 else "q%d" % (i - 2)
 
 
 def self_check():
